@@ -95,7 +95,7 @@ func runOne(seed int64, prof Profile, steps, stabilize, tr int, sum *RunSummary)
 		}
 		return et
 	}
-	c2.emit(&Event{Act: "Init", Cl: &c2.Cl}, nil)
+	c2.emit(&Event{Act: "Init", Cl: clampCl(c2.Cl)}, nil)
 	for _, s := range c.Sched {
 		c2.Do(s)
 	}
@@ -124,6 +124,8 @@ func cmdRandom(args []string) {
 	chunk := fs.Int("chunk", 0, "if >0, start a new output file every <chunk> traces (out.N)")
 	stabilize := fs.Int("stabilize", 0, "append a fault-free suffix of this many rounds")
 	schedDir := fs.String("sched", "", "directory to write schedules of traces with panics")
+	only := fs.Int("only", 0, "run only this trace number (same derived seed as in the full run)")
+	schedOut := fs.String("schedout", "", "with -only: write the executed schedule to this file")
 	_ = fs.Parse(args)
 
 	names := []string{"base", "crash", "election", "snap", "conf", "read", "flow"}
@@ -148,7 +150,10 @@ func cmdRandom(args []string) {
 		sum.OutFiles = append(sum.OutFiles, name)
 	}
 	for i := 0; i < *runs; i++ {
-		if i == 0 || (*chunk > 0 && i%*chunk == 0) {
+		if *only > 0 && i != *only-1 {
+			continue
+		}
+		if w == nil || (*chunk > 0 && i%*chunk == 0) {
 			open(i)
 		}
 		pn := *profile
@@ -172,6 +177,9 @@ func cmdRandom(args []string) {
 		sum.Panics = append(sum.Panics, c.Panics...)
 		for _, st := range c.Sched {
 			sum.Acts[st.Act]++
+		}
+		if *only > 0 && *schedOut != "" {
+			writeSched(*schedOut, c)
 		}
 		if len(c.Panics) > 0 && *schedDir != "" {
 			name := fmt.Sprintf("%s/panic_%d.json", *schedDir, s)
@@ -225,7 +233,18 @@ func cmdReplay(args []string) {
 		}
 		return et + int(id-1)%et
 	}
-	c.emit(&Event{Act: "Init", Cl: &c.Cl}, nil)
+	hasBoot := false
+	for _, s := range sf.Steps {
+		if s.Act == "Boot" {
+			hasBoot = true
+		}
+	}
+	if hasBoot {
+		c.activate()
+		c.emit(&Event{Act: "Init", Cl: clampCl(c.Cl)}, nil)
+	} else {
+		c.Init() // hand-written schedules: boot all initial members
+	}
 	skipped := 0
 	for _, s := range sf.Steps {
 		if s.RTO > 0 {
@@ -235,6 +254,9 @@ func cmdReplay(args []string) {
 		}
 		if !c.Do(s) {
 			skipped++
+			if os.Getenv("VERIF_DEBUG") != "" {
+				fmt.Fprintf(os.Stderr, "skipped step %+v\n", s)
+			}
 		}
 	}
 	if *stabilize > 0 {
